@@ -57,6 +57,7 @@ def fault_sites(block):
             out.append(('input_as_dest', i))
             out.append(('const_as_dest', i))
             out.append(('foreign_wire', i))
+            out.append(('foreign_dest', i))
             out.append(('bad_op', i))
         if n.op not in '@' and any(isinstance(w, pyrtl.Output) for w in wires):
             out.append(('output_as_arg', i))
@@ -170,6 +171,12 @@ def apply_fault(block, kind, idx):
         f = pyrtl.Input(n.args[0].bitwidth, 'flt_foreign', block=other)
         d = fresh(n.dests[0].bitwidth, pyrtl.Output, 'flt_out')
         block.logic.add(LogicNet(n.op, n.op_param, (f,) + n.args[1:], (d,)))
+    elif kind == 'foreign_dest':
+        # a destination wire owned by another block, even when it was added to this block's wire set
+        other = pyrtl.Block()
+        f = pyrtl.Output(n.dests[0].bitwidth, 'flt_foreign_out', block=other)
+        block.add_wirevector(f)
+        block.logic.add(LogicNet(n.op, n.op_param, n.args, (f,)))
     elif kind == 'bad_op':
         d = fresh(n.dests[0].bitwidth, pyrtl.Output, 'flt_out')
         block.logic.add(LogicNet('?', n.op_param, n.args, (d,)))
